@@ -73,11 +73,39 @@ Proof. intros fuel k k' E. destruct (LegacyProps.lrun_all_spec fuel k k' E) as (
 Theorem C03_legacy_log_ok : forall hs acts os, Legacy.under_legacy_core hs acts = Some os -> C03_log acts os [] = true.
 Proof. exact LegacyProps.under_legacy_core_log_ok. Qed.
 
+(* Every command's event queue (and effect queue) is a FIFO queue, at every nesting level and through EVERY function
+   of the runtime - a poll of any task, Stream::poll_next of any command, run_until_settled, wakes, drop glue: the
+   queue of every command changes only by losing elements at the front and gaining elements at the back
+   (Rt/Fifo.v, an instance of the primitive-aware frame principle Rt/Frame2.v).  So events are never reordered or
+   inserted out of order on any hop between the emitting task and the core's channel ... *)
+From Crux Require Rt.Fifo.
+Theorem C03_queues_are_fifo_through_settle : forall fuel cid H H' c, Rt.settle fuel cid H = Some H' ->
+  Fifo.fifo (c_evs (gcmd c H)) (c_evs (gcmd c H')) /\ Fifo.fifo (c_eff (gcmd c H)) (c_eff (gcmd c H')).
+Proof. intros fuel cid H H' c E. exact (Fifo.fifo_settle fuel cid H H' E c). Qed.
+Theorem C03_queues_are_fifo_through_poll_next : forall fuel cid w H r H' c, poll_next fuel cid w H = Some (r, H') ->
+  Fifo.fifo (c_evs (gcmd c H)) (c_evs (gcmd c H')) /\ Fifo.fifo (c_eff (gcmd c H)) (c_eff (gcmd c H')).
+Proof. intros fuel cid w H r H' c E. exact (Fifo.fifo_poll_next fuel cid w H r H' E c). Qed.
+Theorem C03_queues_are_fifo_through_a_poll : forall fuel c0 w fs H r H' c, poll fuel c0 w fs H = Some (r, H') ->
+  Fifo.fifo (c_evs (gcmd c H)) (c_evs (gcmd c H')) /\ Fifo.fifo (c_eff (gcmd c H)) (c_eff (gcmd c H')).
+Proof. intros fuel c0 w fs H r H' c E. exact (Fifo.fifo_poll fuel c0 w fs H r H' E c). Qed.
+(* ... and what Stream::poll_next hands to the host is the element at the HEAD of the queue after settling (events
+   before effects), and exactly that element leaves the queue. *)
+Theorem C03_poll_next_hands_over_the_head : forall fuel cid w H r H',
+  poll_next (S fuel) cid w H = Some (r, H') ->
+  exists H1, settle fuel cid (ucmd cid (set_atomic (Some w)) H) = Some H1 /\
+    match r with
+    | PNEvent e => exists rest, c_evs (gcmd cid H1) = e :: rest /\ H' = ucmd cid (set_evs rest) H1
+    | PNEffect e => exists rest, c_evs (gcmd cid H1) = [] /\ c_eff (gcmd cid H1) = e :: rest /\ H' = ucmd cid (set_eff rest) H1
+    | _ => c_evs (gcmd cid H1) = [] /\ c_eff (gcmd cid H1) = []
+    end.
+Proof. exact Fifo.poll_next_hands_over_the_head. Qed.
+
 (* NOT proved (carried by the correspondence: the runtime model's traces, which fix the order of every log,
    are compared with the implementation's on every generated case): that two events emitted by ONE task deep
    inside nested commands keep their order on the whole way up to the core's channel.  Stating it needs the
-   identity of the emitting task on every event, which the model's events do not carry; the two theorems
-   above are the per-queue facts (append at the tail, take at the head) it would be assembled from. *)
+   identity of the emitting task on every event, which the model's events do not carry; the theorems
+   above are the per-queue facts (every queue on the way is FIFO through every runtime function, a hop takes the
+   head and appends at the tail, the core's pipeline only grows at its end) it would be assembled from. *)
 
 Example C03_nonvacuous :
   under_core FUEL0 [(1, CAll [c_event 2 5; c_event 3 6]); (2, c_event 4 7)] [AEvent 1 0]
